@@ -40,7 +40,8 @@ ASSUMPTIONS = ['documented squeezing rule: 2-D x 1-D and 1-D x 2-D return '
                '(m_a, m_b)']
 REQUIRED_COUNTERS = ['bs_prod_calls', 'table_cells_checked',
                      'converter_roundtrips', 'measure_syndrome_calls',
-                     'uint8_wrap_overlaps_checked']
+                     'uint8_wrap_overlaps_checked',
+                     'measure_syndrome_after_deform_of_used_object']
 EXHAUSTIVE = True
 EXHAUSTIVE_SCOPE = ('bs_prod on all operator pairs for n<=3 (thorough; n<=2 '
                     'plus stacked n=3 in quick) x 9x9 representation pairs x '
@@ -388,20 +389,34 @@ def deformation_case(out, rng, n):
     M = rng.integers(0, 2, size=(3, 2 * n)).astype('uint8')
     ref = v.copy()
     ref[:n][idx], ref[n:][idx] = v[n:][idx], v[:n][idx]
-    got = bpauli.apply_deformation(idx, v)
-    desc = {'f': 'apply_deformation', 'n': n, 'k': int(idx.sum()),
-            'd': int(v.sum())}
-    out.case(desc, bool(idx.any() and v.any()))
-    out.count('converter_roundtrips')
-    if not np.array_equal(got, ref):
-        out.violation('converter/apply_deformation/1d',
-                      'Hadamard on index set mismatch', desc)
     refM = M.copy()
     refM[:, :n][:, idx], refM[:, n:][:, idx] = M[:, n:][:, idx], M[:, :n][:, idx]
-    gotM = bpauli.apply_deformation(list(idx), M)
-    if not np.array_equal(gotM, refM):
-        out.violation('converter/apply_deformation/2d',
-                      'Hadamard on index set mismatch (2-D)', desc)
+    # the qubit mask in every form a caller may hold it in
+    masks = {'bool-array': idx, 'bool-list': [bool(x) for x in idx],
+             'int64-array': idx.astype(np.int64),
+             'uint8-array': idx.astype(np.uint8),
+             'int-list': [int(x) for x in idx]}
+    for mk, mask in masks.items():
+        desc = {'f': 'apply_deformation', 'n': n, 'k': int(idx.sum()),
+                'd': int(v.sum()), 'mask': mk}
+        out.case(desc, bool(idx.any() and v.any()))
+        out.count('converter_roundtrips')
+        try:
+            got = bpauli.apply_deformation(mask, v.copy())
+            gotM = bpauli.apply_deformation(mask, M.copy())
+        except Exception as e:
+            from pv.common import panqec_frame
+            if panqec_frame(e) is None:
+                raise
+            out.violation(f'converter/apply_deformation/{mk}/raises',
+                          f'{type(e).__name__}: {e}', desc)
+            continue
+        if not np.array_equal(got, ref):
+            out.violation(f'converter/apply_deformation/{mk}/1d',
+                          'Hadamard on index set mismatch', desc)
+        if not np.array_equal(gotM, refM):
+            out.violation(f'converter/apply_deformation/{mk}/2d',
+                          'Hadamard on index set mismatch (2-D)', desc)
 
 
 def syndrome_linearity(out, rng, tier):
@@ -418,36 +433,65 @@ def syndrome_linearity(out, rng, tier):
                   ('RotatedToric3DCode', (4, 3, 2)),
                   ('HollowRhombicCode', (3, 3, 4))]
     reps = 10 if tier == 'quick' else 60
+    import scipy.sparse as sp
     for cls, size in picks:
-        for dname, kw in fam.deformations(cls)[:3]:
-            code = fam.build(cls, size, dname, kw)
+        # ONE object per lattice: it is measured, deformed, measured again,
+        # deformed again ... -- the syndrome must always be that of the
+        # object's CURRENT generators (oracle: a freshly built object)
+        code = fam.build(cls, size)
+        steps = fam.deformations(cls)[:3]
+        steps = steps + steps[1:2]
+        for step, (dname, kw) in enumerate(steps):
+            if dname is not None:
+                code.deform(dname, **kw)
+                out.count('measure_syndrome_after_deform_of_used_object')
             n = code.n
-            H = gf2.pack_rows(code.stabilizer_matrix)
-            for _ in range(reps):
+            H = gf2.pack_rows(fam.build(cls, size, dname, kw)
+                              .stabilizer_matrix)
+            for r in range(reps):
                 p = float(rng.choice([0.02, 0.2, 0.5, 1.0]))
                 e1 = (rng.random(2 * n) < p).astype(np.int64)
                 e2 = (rng.random(2 * n) < p).astype(np.int64)
                 if rng.random() < 0.1:
                     e1[:] = 1
                 dt = str(rng.choice(DTYPES))
-                s1 = np.asarray(code.measure_syndrome(e1.astype(dt)))
-                s2 = np.asarray(code.measure_syndrome(e2.astype(dt)))
-                s12 = np.asarray(code.measure_syndrome((e1 ^ e2).astype(dt)))
+                form = ['1d', '1d', 'list', 'row2d', 'csr'][r % 5]
+
+                def give(e):
+                    if form == '1d':
+                        return e.astype(dt)
+                    if form == 'list':
+                        return [int(x) for x in e]
+                    if form == 'row2d':
+                        return e.astype(dt).reshape(1, -1)
+                    return sp.csr_matrix(e.astype('uint8').reshape(1, -1))
+                s1 = np.asarray(code.measure_syndrome(give(e1)))
+                s2 = np.asarray(code.measure_syndrome(give(e2)))
+                s12 = np.asarray(code.measure_syndrome(give(e1 ^ e2)))
                 out.count('measure_syndrome_calls', 3)
                 desc = {'f': 'measure_syndrome', 'cls': cls, 'size': size,
                         'deformation': dname, 'kw': kw, 'dtype': dt,
+                        'form': form, 'history_step': step,
                         'w': [int(e1.sum()), int(e2.sum())]}
                 out.case(desc, bool(e1.any()))
                 ref1 = np.array(gf2.syndrome(H, gf2.pack(e1), n))
+                hist = '/after-history' if step else ''
+                if form != '1d':
+                    if s1.size != len(H):
+                        out.violation(f'measure_syndrome/{form}/shape',
+                                      f'shape {s1.shape} for {len(H)} '
+                                      f'generators', desc)
+                        continue
+                    s1, s2, s12 = s1.ravel(), s2.ravel(), s12.ravel()
                 if s1.shape != (len(H),):
                     out.violation('measure_syndrome/shape',
                                   f'shape {s1.shape} != ({len(H)},)', desc)
                 elif not np.array_equal(s1.astype(np.int64), ref1):
-                    out.violation('measure_syndrome/value',
+                    out.violation(f'measure_syndrome{hist}/value',
                                   'syndrome differs from oracle',
                                   dict(desc, error=e1 if n < 40 else None))
                 elif not np.array_equal((s1 + s2) % 2, s12 % 2):
-                    out.violation('measure_syndrome/not-linear',
+                    out.violation(f'measure_syndrome{hist}/not-linear',
                                   's(e1+e2) != s(e1)+s(e2)', desc)
 
 
